@@ -65,7 +65,7 @@ def script_events(t, modname='vtw.tests', nth=1):
             base = '%s (%s)' % (dn.split('.')[-1], '.'.join(dn.split('.')[:-1]))
         return [('F', base)] if s == 'fail' else []
     base = 'test_%s (%s.T_%s.test_%s)' % (t['n'], modname, t['n'], t['n'])
-    if s in ('pass', 'xfail', 'leave_replaced', 'warnfilter'):
+    if s in ('pass', 'xfail', 'leave_replaced', 'warnfilter', 'swap_pass'):
         return []
     if s == 'sub_skip':
         return [('S', '%s (i=0)' % base)]
@@ -73,7 +73,7 @@ def script_events(t, modname='vtw.tests', nth=1):
         return [('F', '%s (i=0)' % base)]
     if s in ('skip_dec', 'skip_cls', 'skip_setup', 'skip_body'):
         return [('S', base)]
-    if s in ('fail', 'uxs'):
+    if s in ('fail', 'uxs', 'swap_fail'):
         return [('F', base)]
     if s in ('error', 'setup_err', 'teardown_err', 'cleanup_err', 'sysexit'):
         return [('E', base)]
@@ -196,7 +196,10 @@ def layer_fault_choices(shape, maxf=1, rich=False):
     if rich:
         menu += [('setUp', 'Chained'), ('tearDown', 'Context'),
                  ('setUp', 'BadStr'), ('tearDown', 'Group'),
-                 ('setUp', 'Skip'), ('tearDown', 'Chain3')]
+                 ('setUp', 'Skip'), ('tearDown', 'Chain3'),
+                 ('setUp', 'CauseCycle'), ('tearDown', 'ContextCycle'),
+                 ('tearDown', 'SelfCause'), ('tearDown', 'CauseCycle'),
+                 ('setUp', 'ContextCycle')]
     yield {}
     if maxf >= 1:
         for n in names:
